@@ -13,15 +13,17 @@ VARIABLES
   ackedIdx,   \* version of meta.json written by the last commit whose call returned
   regs,       \* segments in the writer's registers: set of [sid, delop] (from the hook)
   metaSegs,   \* segments of the newest meta.json: set of [sid, delop]
-  segOf       \* path -> [sid, ext, delop] for segment files seen so far
+  segOf,      \* path -> [sid, ext, delop] for segment files seen so far
+  building    \* segments known to be under construction right now (gate-forced GC races only:
+              \* the thread creating them is parked by the harness)
 
-tvars == <<svars, l, callIdx, ackedIdx, regs, metaSegs, segOf>>
+tvars == <<svars, l, callIdx, ackedIdx, regs, metaSegs, segOf, building>>
 Ev == Rec[l]
 SeqToSet(s) == {s[i] : i \in 1..Len(s)}
 Put(f, k, v) == (k :> v) @@ f    \* eager (a function constructor here builds nested lazy closures)
 Known(tag) == PrintT(<<"KF", tag, l>>)
 
-Same == UNCHANGED <<callIdx, ackedIdx, regs, metaSegs, segOf>>
+Same == UNCHANGED <<callIdx, ackedIdx, regs, metaSegs, segOf, building>>
 
 SegRec(e) == [sid |-> e.sid, ext |-> e.ext, delop |-> e.delop]
 
@@ -34,19 +36,20 @@ SegRec(e) == [sid |-> e.sid, ext |-> e.ext, delop |-> e.delop]
 NeededFile(p) ==
   \/ p \in metaV[Len(metaV)].files
   \/ /\ p \in DOMAIN segOf
-     /\ LET s == segOf[p] IN \E r \in regs : r.sid = s.sid /\ (s.ext # "del" \/ r.delop = s.delop)
+     /\ LET s == segOf[p] IN \/ \E r \in regs : r.sid = s.sid /\ (s.ext # "del" \/ r.delop = s.delop)
+                            \/ s.sid \in building
 
 TReset ==
   /\ Ev.e = "reset"
   /\ exists' = {} /\ entDur' = {} /\ termd' = {} /\ ghosts' = {} /\ live' = {}
   /\ metaV' = <<[files |-> {}, op |-> 0]>> /\ metaDur' = 0 /\ manV' = <<{}>> /\ manDur' = 0
-  /\ callIdx' = 1 /\ ackedIdx' = 1 /\ regs' = {} /\ metaSegs' = {} /\ segOf' = <<>>
+  /\ callIdx' = 1 /\ ackedIdx' = 1 /\ regs' = {} /\ metaSegs' = {} /\ segOf' = <<>> /\ building' = {}
 
 TCreate ==
   /\ Ev.e = "create"
   /\ Create(Ev.p)
   /\ segOf' = IF "sid" \in DOMAIN Ev THEN Put(segOf, Ev.p, SegRec(Ev)) ELSE segOf
-  /\ UNCHANGED <<callIdx, ackedIdx, regs, metaSegs>>
+  /\ UNCHANGED <<callIdx, ackedIdx, regs, metaSegs, building>>
 
 TTerm == Ev.e = "term" /\ Terminate(Ev.p) /\ Same
 TDropW == Ev.e = "dropw" /\ DropWriter(Ev.p) /\ Same
@@ -67,7 +70,7 @@ TMeta ==
   /\ ("synced" \in DOMAIN Ev => Ev.synced)
   /\ AWriteMeta(SeqToSet(Ev.files), Ev.op)
   /\ metaSegs' = SeqToSet(Ev.segs)
-  /\ UNCHANGED <<callIdx, ackedIdx, regs, segOf>>
+  /\ UNCHANGED <<callIdx, ackedIdx, regs, segOf, building>>
 
 TMan ==
   /\ Ev.e = "man"
@@ -77,12 +80,12 @@ TMan ==
 TRegs ==
   /\ Ev.e = "regs"
   /\ regs' = SeqToSet(Ev.segs)
-  /\ UNCHANGED <<svars, callIdx, ackedIdx, metaSegs, segOf>>
+  /\ UNCHANGED <<svars, callIdx, ackedIdx, metaSegs, segOf, building>>
 
 TCall ==
   /\ Ev.e = "call"
   /\ callIdx' = Len(metaV)
-  /\ UNCHANGED <<svars, ackedIdx, regs, metaSegs, segOf>>
+  /\ UNCHANGED <<svars, ackedIdx, regs, metaSegs, segOf, building>>
 
 \* commit returned Ok: the version it wrote must already be durable (C01 clause 2)
 TCommitRet ==
@@ -92,20 +95,20 @@ TCommitRet ==
         /\ \A j \in (callIdx + 1)..(i - 1) : metaV[j].op # Ev.op
         /\ ackedIdx' = i
         /\ Lo(metaDur) >= i                                  \* CrashDurable
-  /\ UNCHANGED <<svars, callIdx, regs, metaSegs, segOf>>
+  /\ UNCHANGED <<svars, callIdx, regs, metaSegs, segOf, building>>
 
 \* rollback / new writer / drop / wait_merging_threads: the registers are rebuilt from meta.json
 TFresh ==
   /\ Ev.e = "fresh"
   /\ regs' = metaSegs
-  /\ UNCHANGED <<svars, callIdx, ackedIdx, metaSegs, segOf>>
+  /\ UNCHANGED <<svars, callIdx, ackedIdx, metaSegs, segOf, building>>
 
 \* explicit garbage collection returned (other threads may be active: only `nothing needed is
 \* missing` is claimed here; `nothing else is left` is claimed at the quiescent end of the run)
 TGc2 ==
   /\ Ev.e = "gc"
   /\ metaV[Len(metaV)].files \subseteq exists
-  /\ UNCHANGED <<svars, callIdx, ackedIdx, regs, metaSegs, segOf>>
+  /\ UNCHANGED <<svars, callIdx, ackedIdx, regs, metaSegs, segOf, building>>
 
 \* quiescent end of a run (commit returned, merges waited for, GC ran): exactly the committed
 \* files are left and the persisted managed list matches them (C10)
@@ -116,14 +119,19 @@ TEnd ==
   /\ SeqToSet(Ev.managed) = exists \cup {"meta.json"}
   /\ manV[Len(manV)] = SeqToSet(Ev.managed)
   /\ live = {}
+  /\ UNCHANGED <<svars, callIdx, ackedIdx, regs, metaSegs, segOf, building>>
+
+TBuild ==
+  /\ Ev.e \in {"build_start", "build_end"}
+  /\ building' = IF Ev.e = "build_start" THEN building \cup {Ev.sid} ELSE building \ {Ev.sid}
   /\ UNCHANGED <<svars, callIdx, ackedIdx, regs, metaSegs, segOf>>
 
 TNext ==
   /\ l <= Len(Rec) /\ l' = l + 1
   /\ \/ TReset \/ TCreate \/ TTerm \/ TDropW \/ TDelete \/ TSync \/ TMeta \/ TMan \/ TRegs
-     \/ TCall \/ TCommitRet \/ TFresh \/ TGc2 \/ TEnd
+     \/ TCall \/ TCommitRet \/ TFresh \/ TGc2 \/ TEnd \/ TBuild
 
-TInit == SInit /\ l = 1 /\ callIdx = 1 /\ ackedIdx = 1 /\ regs = {} /\ metaSegs = {} /\ segOf = <<>>
+TInit == SInit /\ l = 1 /\ callIdx = 1 /\ ackedIdx = 1 /\ regs = {} /\ metaSegs = {} /\ segOf = <<>> /\ building = {}
 TSpec == TInit /\ [][TNext]_tvars
 
 \* state invariants, evaluated after every event = at every crash point of the run
